@@ -53,6 +53,13 @@ fn main() {
                 writeln!(out, "{}", line).unwrap();
             }
         }
+        "parse+s" | "expr+s" | "stmt+s" | "stmts2+s" | "stmts3+s" => {
+            canon::quiet_panics();
+            for rec in read_records() {
+                let line = canon::guarded(|| walk::parse_line_state(&mode[..mode.len() - 2], &rec));
+                writeln!(out, "{}", line).unwrap();
+            }
+        }
         "outcome" => {
             canon::quiet_panics();
             for rec in read_records() {
